@@ -212,10 +212,12 @@ REG.add(Contract(
           'tolerance == 0 ==> src.i >= old(src.i) + 1 and src.Q[src.i - 1].cat == ' + ENDCAT),
         P(['C08', 'C01'], 'exact-when-tight', 'tolerance == 0 and cleansrc(src) and tight(result) ==> ser(result) == ' + _RA_SPAN),
         P(['C08'], 'conserves-non-blank', 'tolerance == 0 and cleansrc(src) and clean(result) ==> NW(ser(result)) == NW(%s)' % _RA_SPAN),
+        A('not-a-raw-string', 'kind(result) != KSTR()'),
         G('gapped', 'gapped(result) == (old(src.i) >= 2 and src.Q[old(src.i) - 2].cat == TC.MergedSpacer)'),
         G('not-bare', 'not isbare(result)')],
     loops={0: Loop(ghost={'content': 'hlist[1,E]'},
                    invariant=[A('inv', 'inv(src)'), A('range', 'old(src.i) <= src.i'),
+                              A('no-raw-strings', 'noplain(content[1:])'),
                               A('exact', 'tolerance == 0 and cleansrc(src) and TL(content[1:]) ==> SL(content[1:]) == '
                                 + Wx('old(src.i)', 'src.i')),
                               A('non-blank', 'tolerance == 0 and cleansrc(src) and CLN(content[1:]) ==> NW(SL(content[1:])) == NW(%s)'
@@ -229,7 +231,7 @@ REG.add(Contract(
     modifies=['src.i', 'src.m'], props=['C06', 'C08', 'C13', 'C01', 'C02', 'C10', 'C12'],
     measure=(MEASURE, RANK['read_expr']), raises=dict(ALLOWED),
     ensures=SRC_KEEP + [
-        A('progress', 'src.i > old(src.i)'),
+        A('progress', 'src.i > old(src.i)'), A('not-a-raw-string', 'kind(result) != KSTR()'),
         P(['C13'], 'position', 'kind(result) != K("TexText") ==> epos(result) == src.Q[old(src.i)].position'),
         P(['C13', 'C02'], 'text-leaf-is-the-token', 'kind(result) == K("TexText") ==> etok(result) == src.Q[old(src.i)]'),
         P(['C08', 'C01'], 'exact-when-tight', 'tolerance == 0 and cleansrc(src) and tight(result) ==> ser(result) == ' + _RE_SPAN),
@@ -373,6 +375,7 @@ _tree.LEAF_HOOKS.append(lambda st, e: st.fact(And(clean(e), Not(isbare(e)))))
 _STOP_ITEM = ('src.i >= len(src.Q) or src.Q[src.i].cat == TC.GroupEnd or (src.Q[src.i].cat == TC.Escape and '
               'src.i + 1 < len(src.Q) and (src.Q[src.i + 1].text == "end" or src.Q[src.i + 1].text == "item"))')
 _LIST_INV = lambda var: [
+    A('no-raw-strings', 'noplain(%s)' % var),
     A('inv', 'inv(src)'), A('range', 'old(src.i) <= src.i'),
     A('exact', 'tolerance == 0 and cleansrc(src) and TL(%s) ==> SL(%s) == %s' % (var, var, Wx('old(src.i)', 'src.i'))),
     A('non-blank', 'tolerance == 0 and cleansrc(src) and CLN(%s) ==> NW(SL(%s)) == NW(%s)' % (var, var, Wx('old(src.i)', 'src.i')))]
@@ -383,7 +386,7 @@ REG.add(Contract(
     ensures=SRC_KEEP + [
         P(['C08', 'C01'], 'exact', 'tolerance == 0 and cleansrc(src) and TL(result) ==> SL(result) == ' + Wx('old(src.i)', 'src.i')),
         P(['C08'], 'non-blank', 'tolerance == 0 and cleansrc(src) and CLN(result) ==> NW(SL(result)) == NW(%s)' % Wx('old(src.i)', 'src.i')),
-        P(['C02'], 'owns-up-to-next-item-or-end', _STOP_ITEM)],
+        P(['C02'], 'owns-up-to-next-item-or-end', _STOP_ITEM), A('no-raw-strings', 'noplain(result)')],
     loops={0: Loop(ghost={'extras': 'seq[E]'}, invariant=_LIST_INV('extras'), decreases=MEASURE)}))
 
 # ---------------------------------------------------------------------- read_math_env (one case per math class)
